@@ -1,10 +1,12 @@
 """C07 - exploration getters and lengths report exactly what is stored."""
 from .common import *
 ID = "C07"
-FUNCTIONS = [TF + "__len__", TF + "all", TF + "reindex", IX + "__len__", IX + "build"]
+FUNCTIONS = [TF + "__len__", TF + "all", TF + "reindex", IX + "__len__", IX + "build"] + \
+    [IX + f for f in ("get_measurements", "get_tag_keys", "get_field_keys")] + [TF + f for f in ("get_measurements", "get_tag_keys", "get_field_keys")] + \
+    ["tinyflux.measurement.Measurement." + f for f in ("get_tag_keys", "get_field_keys")]
 ASSUMED = ["tinyflux.storages.Storage.__len__", "tinyflux.storages.Storage.read"]
 STANDIN = "standins/dbdiff.py"
 TRUSTED = TRUSTED_CORE + [STORAGE_ASSUMED,
-                          "NOT under contract in this round (bounded stand-in only): Index.get_* (6 getters), TinyFlux.get_* (6 getters), TinyFlux.__iter__, Measurement.__len__/__iter__/all, CSVStorage.__len__"]
+                          "NOT under contract (bounded stand-in only): get_tag_values, get_field_values, get_timestamps (Index, TinyFlux, Measurement), Measurement.get... of those, TinyFlux.__iter__, Measurement.__len__/__iter__/all"]
 ASSUMPTIONS = [A_ALIAS]
 LEVEL = "other"
